@@ -17,7 +17,7 @@ if '--jobs' in args:
     jobs = int(args[k + 1])
     del args[k:k + 2]
 claimed = {c['property_id'] for c in json.load(open(os.path.join(ROOT, 'MANIFEST.json')))['checks']}
-ids = args or sorted(os.path.basename(p) for p in glob.glob(os.path.join(ROOT, 'seeded', 'C*')))
+ids = args or sorted(os.path.basename(p) for p in glob.glob(os.path.join(ROOT, 'seeded', 'C*')) if os.path.isdir(p))
 res_path = os.path.join(ROOT, 'seeded', 'RESULTS.json')
 results = json.load(open(res_path)) if os.path.exists(res_path) else {}
 assert subprocess.run(['git', '-C', '/repo', 'status', '--porcelain', '--untracked-files=no'], capture_output=True, text=True).stdout.strip() == '', '/repo not clean'
